@@ -157,6 +157,41 @@ def shapes(tier="quick"):
     out.append(Shape(name(), "struct", [("", "named", [("G", False), ("core::marker::PhantomData<&'a ()>", False)])],
                      generics="<'gc, 'a>", gc_lifetime="'gc"))
     out.append(Shape(name(), "struct", [("", "named", [("Vec<T>", False), ("Option<U>", False)])], generics="<T, U>"))
+    if tier != "quick":
+        # every subset of positions marked require_static, 1..4 fields, pointer-bearing fields elsewhere
+        for k in (1, 2, 3, 4):
+            for mask in range(1, 2 ** k):
+                for style, ptr in (("named", "G"), ("tuple", "W"), ("named", "V")):
+                    fs = [("S", True) if (mask >> i) & 1 else (ptr, False) for i in range(k)]
+                    out.append(Shape(name(), "struct", [("", style, fs)]))
+        # all combinations of 4 fields over {strong, plain, weak}
+        for combo in itertools.product(("G", "I", "W"), repeat=4):
+            out.append(Shape(name(), "struct", [("", "named", [(c, False) for c in combo])]))
+        # enums of 4 variants in every order; require_static inside each variant position
+        for sel in itertools.permutations(vkinds, 4):
+            out.append(Shape(name(), "enum", [("V%d%s" % (i, v[0]), v[1], list(v[2])) for i, v in enumerate(sel)]))
+        for pos in range(3):
+            for inner in range(2):
+                vs = []
+                for i in range(3):
+                    fs = [("G", False), ("W", False)]
+                    if i == pos:
+                        fs[inner] = ("S", True)
+                    vs.append(("V%d" % i, "tuple" if i % 2 else "named", fs))
+                out.append(Shape(name(), "enum", vs))
+        # the other modes over structural shapes
+        for mode in ("unsafe_drop",):
+            for combo in itertools.product(("G", "I", "W", "V"), repeat=2):
+                out.append(Shape(name(), "struct", [("", "named", [(c, False) for c in combo])], mode=mode))
+            for sel in itertools.permutations(vkinds, 2):
+                out.append(Shape(name(), "enum", [("V%d%s" % (i, v[0]), v[1], list(v[2])) for i, v in enumerate(sel)], mode=mode))
+        # generic parameter at every position among plain / pointer fields
+        for k in (2, 3):
+            for pos in range(k):
+                for other in ("I", "G"):
+                    fs = [(other, False)] * k
+                    fs[pos] = ("T", False)
+                    out.append(Shape(name(), "struct", [("", "named", list(fs))], generics="<'gc, T>" if other == "G" else "<T>"))
     return out
 
 
